@@ -88,7 +88,19 @@ def cases(draw, modes):
         labels = list(range(draw(st.integers(4, 8))))
     N = len(labels)
     K, u, w = draw(parameters(N))
-    case = {"mode": mode, "N": N, "K": K, "u": u, "w": w,
+    # hard memberships (one-hot rows, diagonal w): a hyperedge across communities has Poisson
+    # mean exactly 0 -- it must still be kept with a positive integer weight when the chain is
+    # conditioned (u >= 0 with zero entries is inside the quantifier "all parameter matrices")
+    hard = False
+    if mode in ("initial", "sequences") and K >= 2 and draw(st.integers(0, 3)) == 0:
+        hot = draw(st.lists(st.integers(0, K - 1), min_size=N, max_size=N))
+        u = [[u[i][k] if k == hot[i] else 0.0 for k in range(K)] for i in range(N)]
+        w = [[w[k][q] if k == q else 0.0 for q in range(K)] for k in range(K)]
+        for k in range(K):
+            if w[k][k] == 0.0:
+                w[k][k] = 1.0
+        hard = True
+    case = {"mode": mode, "N": N, "K": K, "u": u, "w": w, "hard_memberships": hard,
             "exact_dyadic": draw(st.booleans()),
             "burn_in": draw(st.integers(0, 30)),
             "intermediate": draw(st.integers(0, 30)),
@@ -254,6 +266,8 @@ def _classify(case, ctx):
               "max_hye_size:%s" % case["max_hye"])
     steps = case["burn_in"] + case["n_samples"] * case["intermediate"]
     ctx.label("mcmc steps >= 10" if steps >= 10 else "mcmc steps < 10")
+    if case.get("hard_memberships"):
+        ctx.label("hard memberships (zero-rate hyperedges possible)")
     if case["burn_in"] == 0:
         ctx.label("no burn-in")
     if case["intermediate"] == 0:
@@ -338,6 +352,32 @@ def check_validity(case, ctx):
     ctx.nontrivial(steps >= 10 and moved and any(s.num_edges() >= 2 for s in samples))
 
 
+def _explained_by_merges(edges, short_deg, short_size, missing):
+    """Can `missing` hyperedges, each equal to one of `edges` (repeats allowed), account for
+    exactly the missing degrees and size counts?  (depth-first search; missing <= 8)"""
+    if missing == 0:
+        return not short_deg and not short_size
+    cands = [e for e in edges if short_size.get(len(e), 0) > 0
+             and all(short_deg.get(v, 0) > 0 for v in e)]
+
+    def rec(start, left, sd, ss):
+        if left == 0:
+            return not any(sd.values()) and not any(ss.values())
+        for i in range(start, len(cands)):
+            e = cands[i]
+            if ss.get(len(e), 0) > 0 and all(sd.get(v, 0) > 0 for v in e):
+                sd2 = dict(sd)
+                for v in e:
+                    sd2[v] -= 1
+                ss2 = dict(ss)
+                ss2[len(e)] -= 1
+                if rec(i, left - 1, sd2, ss2):
+                    return True
+        return False
+
+    return rec(0, missing, dict(short_deg), dict(short_size))
+
+
 def check_conditioning_initial(case, ctx):
     sampler, samples, steps = _run(case, ctx)
     h0, start = build_initial(case)
@@ -370,6 +410,22 @@ def check_conditioning_initial(case, ctx):
                     lambda: "sample %d has as many hyperedges as the initial hypergraph (no "
                     "coincidence, none dropped) but degrees %r / sizes %r differ from the initial "
                     "%r / %r" % (j, deg, dict(size), deg0, dict(size0)), key="not_preserved")
+        else:
+            # fewer hyperedges than the chain: the statement allows this only when sampled
+            # hyperedges coincided, and then the copy that absorbed the other one is PRESENT in
+            # the sample -- so the shortfall in degrees and size counts must be the sum of the
+            # indicator vectors of a multiset of hyperedges of the sample
+            short_deg = {n: deg0[n] - deg[n] for n in labels if deg0[n] != deg[n]}
+            short_size = {d: size0[d] - size[d] for d in size0 if size0[d] != size[d]}
+            require(_explained_by_merges(list(tab), short_deg, short_size,
+                                         len(start) - len(tab)),
+                    lambda: "sample %d has %d of the chain's %d hyperedges, but the missing degrees "
+                    "%r / sizes %r are not those of hyperedges present in the sample %r: a "
+                    "hyperedge was dropped although it coincided with no other (initial %r)"
+                    % (j, len(tab), len(start), short_deg, short_size,
+                       [sorted(e, key=repr) for e in tab], [sorted(e, key=repr) for e in start]),
+                    key="dropped_without_coincidence")
+            ctx.label("short sample explained by coincidences")
         if set(tab) != set(start):
             moved = True
     ctx.label("full-length samples: %s" % ("all" if full == len(samples) else
@@ -419,6 +475,17 @@ def check_conditioning_sequences(case, ctx):
                         lambda: "matching_sequences is True and sample %d has all %d hyperedges, "
                         "but its degrees %r differ from the degree sequence %r"
                         % (j, total, [deg[i] for i in range(N)], deg_seq), key="degrees_not_preserved")
+            elif len(tab) < total:
+                # matching sequences: the chain realises both sequences exactly, so a shorter
+                # sample is only allowed through coincidences, whose surviving copy is present
+                short_deg = {i: deg_seq[i] - deg[i] for i in range(N) if deg_seq[i] != deg[i]}
+                short_size = {d: dim_seq[d] - size[d] for d in dim_seq if dim_seq[d] != size[d]}
+                require(_explained_by_merges(list(tab), short_deg, short_size, total - len(tab)),
+                        lambda: "matching_sequences is True and sample %d has %d of %d hyperedges, "
+                        "but the missing degrees %r / sizes %r are not those of hyperedges present "
+                        "in the sample %r: a hyperedge was dropped although it coincided with no "
+                        "other" % (j, len(tab), total, short_deg, short_size,
+                                   [sorted(e) for e in tab]), key="dropped_without_coincidence")
     if any(len(t) == total for t in tables):
         ctx.label("full-length sample")
     moved = len({frozenset(t) for t in tables}) > 1
